@@ -48,6 +48,17 @@ func stdExternal(a *pta.Analysis, site ssa.CallInstruction, callee *ssa.Function
 			a.ExternalWrite(site, 0, "shared container update")
 		}
 	}
+	// sync/atomic loads: the result is what the cell holds
+	if name == "sync/atomic.LoadPointer" || strings.HasPrefix(name, "(*sync/atomic.Pointer[") && strings.HasSuffix(name, ".Load") {
+		a.ResultLoadsArg(site, 0, 0)
+		return true
+	}
+	if name == "sync/atomic.StorePointer" || name == "sync/atomic.SwapPointer" {
+		// `atomic.StorePointer(&x.f, p)` is `x.f = p` as far as pointers go
+		a.ExternalWrite(site, 0, "atomic update")
+		a.WriteArgThrough(site, 0, 1)
+		return true
+	}
 	// sync/atomic: a store, swap, add or compare-and-swap changes what its first argument (receiver or address) points to
 	if strings.HasPrefix(name, "(*sync/atomic.") || strings.HasPrefix(name, "sync/atomic.") {
 		base := name[strings.LastIndex(name, ".")+1:]
